@@ -5,6 +5,7 @@ from hypothesis import strategies as st
 from vlib import boolsem, gen_circ, sims
 
 ID = "C11"
+CASE_TIMEOUT = 8  # seconds per case; a timed-out case is counted as skipped (symbolic blow-up on long feedback runs), never as a verdict
 RULE = (
     "Hypothesis generates circuits of 1..5 qubits: runs of X/CX/CCX/MCX(3..5 controls) interleaved with "
     "H/Z/S/T/Y/P/CZ/CP/SWAP and barriers (leading, trailing, doubled, inside runs); inner quantifier: all 2^n basis "
